@@ -132,7 +132,7 @@ impl Property for C13 {
     type Case = Case;
     const ID: &'static str = "C13";
     fn cases(tier: Tier) -> u64 {
-        tier.pick(8_000, 300_000)
+        tier.pick(24_000, 400_000)
     }
     fn strategy(tier: Tier) -> BoxedStrategy<Case> {
         let n = tier.pick(40usize, 100usize);
